@@ -191,7 +191,8 @@ class HybridCache(_CacheBase):
             k: v / total_access_count for k, v in self._access_counts.items()
         }
         normalized_durations = {
-            k: v / total_duration for k, v in self._computation_durations.items()
+            k: v / total_duration if total_duration else 0.0
+            for k, v in self._computation_durations.items()
         }
 
         # Calculate scores using a weighted sum
